@@ -124,6 +124,8 @@ Section Interp.
     | "-", VZ x, VZ y => VZ (x - y)
     | "*", VZ x, VZ y => VZ (x * y)
     | "^", VZ x, VZ y => VZ (Z.lxor x y)
+    | "/", VZ x, VZ y => if y =? 0 then VBad "integer division by zero" else VZ (Z.quot x y)   (* Go truncates toward zero *)
+    | "%", VZ x, VZ y => if y =? 0 then VBad "integer division by zero" else VZ (Z.rem x y)
     | "+", VStr x, VStr y => VStr (x ++ y)
     | "==", VB x, VB y => VB (Bool.eqb x y)
     | "!=", VB x, VB y => VB (negb (Bool.eqb x y))
@@ -313,6 +315,7 @@ Section Interp.
           | _ => kbad "defer"
           end
       | GGo (GCall "$closure" [GFunc body]) => k (push_go body s)
+      | GGo (GCall f []) => k (emit "go" [VStr f] s)       (* `go c.method()`: which goroutine is started is observable *)
       | GGo _ => k (emit "go" [] s)
       | GBranch what => kret [VStr what] s     (* leaves the loop body being interpreted: reported like a return *)
       | GOtherS x => kbad ("untranslated statement " ++ x)
